@@ -16,22 +16,40 @@ import flow
 from common import natlist, boollist, coq_list
 
 
-def make(rng, eta):
+def make(rng, eta, slow=False):
     import artlib
     ma = artlib.FuzzyART(rho=rng.choice([0.0, 0.3, 0.6]), alpha=1e-3, beta=1.0)
-    mb = artlib.FuzzyART(rho=rng.choice([0.0, 0.3, 0.6, 0.9]), alpha=1e-3, beta=1.0)
+    kind = "art2a-slow" if slow else rng.choice(["fuzzy", "fuzzy", "fuzzy-slow", "art2a-slow"])
+    if kind == "fuzzy":
+        mb = artlib.FuzzyART(rho=rng.choice([0.0, 0.3, 0.6, 0.9]), alpha=1e-3, beta=1.0)
+    elif kind == "fuzzy-slow":
+        mb = artlib.FuzzyART(rho=rng.choice([0.6, 0.9]), alpha=1e-3, beta=rng.choice([0.2, 0.5]))
+    else:       # slow learning: with several epochs a column category can lose all its members
+        mb = artlib.ART2A(rho=rng.choice([0.8, 0.9, 0.95, 0.99]), alpha=1e-7, beta=0.2)
     return artlib.BARTMAP(ma, mb, eta=float(eta))
 
 
 def run(rng):
-    n = rng.randrange(2, 8)
-    m = n if rng.random() < 0.6 else rng.randrange(2, 8)
-    X = np.array([[rng.random() for _ in range(m)] for _ in range(n)])
-    if rng.random() < 0.3:
-        X[:, rng.randrange(m)] = X[:, 0] * 2 + 1        # correlated columns
-    eta = rng.choice([-1.0, 0.0, 0.5, 0.9])
-    est = make(rng, eta)
-    rep = {"X": X.tolist(), "eta": eta, "shape": [n, m]}
+    proto = rng.random() < 0.25
+    if proto:
+        # columns are noisy copies of a few prototype columns, slow column module, several epochs:
+        # the setting in which a column category created in epoch one can end up empty
+        n = m = rng.randrange(8, 13)
+        npro = rng.choice([2, 3, 4])
+        P = np.array([[rng.random() for _ in range(npro)] for _ in range(n)])
+        asg = [rng.randrange(npro) for _ in range(m)]
+        X = np.clip(P[:, asg] + rng.choice([0.2, 0.3]) * np.array([[rng.gauss(0, 1) for _ in range(m)] for _ in range(n)]), 0, 1)
+    else:
+        n = rng.randrange(2, 8)
+        m = n if rng.random() < 0.6 else rng.randrange(2, 8)
+        X = np.array([[rng.random() for _ in range(m)] for _ in range(n)])
+        if rng.random() < 0.3:
+            X[:, rng.randrange(m)] = X[:, 0] * 2 + 1        # correlated columns
+    eta = -1.0 if proto else rng.choice([-1.0, -1.0, 0.0, 0.5, 0.9])
+    est = make(rng, eta, slow=proto)
+    epochs = rng.choice([2, 3]) if proto else rng.choice([1, 1, 2, 3])
+    rep = {"X": X.tolist(), "eta": eta, "shape": [n, m], "max_iter": epochs,
+           "module_b": type(est.module_b).__name__ + repr({k: v for k, v in est.module_b.params.items()})}
     fails = []
     # "after BARTMAP.fit" includes a fit of an instance that was fitted before: same-shape matrix first
     # (a column permutation of X or fresh values), then X; everything below is about the last fit
@@ -50,15 +68,17 @@ def run(rng):
                     est.fit(X0)
                 rep["fitted_before_on"] = X0.tolist()
             except Exception:
-                est = make(rng, eta)
+                est = make(rng, eta, slow=proto)
     try:
         with np.errstate(all="ignore"), contextlib.redirect_stdout(io.StringIO()), C.time_limit(20):
-            est.fit(X)
+            est.fit(X, max_iter=epochs)
     except Exception as e:
         if n != m and isinstance(e, IndexError):
             sig = "BARTMAP.fit/non-square-IndexError"
         elif isinstance(e, ValueError) and "length at least 2" in str(e):
             sig = "BARTMAP.fit/singleton-column-cluster-ValueError"
+        elif isinstance(e, ValueError) and "X_a has length 0" in str(e):
+            sig = "BARTMAP.fit/empty-column-cluster-ValueError"
         else:
             sig = "BARTMAP.fit/raises"
         fails.append({"signature": sig, "text": f"fit on a {n}x{m} matrix raises {type(e).__name__}: {str(e)[:80]}", "replay": rep})
@@ -83,10 +103,10 @@ def run(rng):
                 break
     # the column clustering is what the column module alone produces on the transposed matrix
     import artlib
-    alone = artlib.FuzzyART(**{k: v for k, v in est.module_b.params.items()})
+    alone = type(est.module_b)(**{k: v for k, v in est.module_b.params.items()})
     alone.d_min_, alone.d_max_ = est.module_b.d_min_, est.module_b.d_max_      # same remembered data bounds
     Xb = alone.prepare_data(X.T)
-    alone.fit(Xb)
+    alone.fit(Xb, max_iter=epochs)
     if list(alone.labels_) != cb:
         f("columns-eq-module-b", "column_labels_ differ from the column module run alone on X^T")
     case = (f"(mkBCase {natlist(ra)} {natlist(cb)} {nA}%nat {nB}%nat {coq_list([boollist(r) for r in R.tolist()])} "
